@@ -586,7 +586,10 @@ def case_chains(ctx, rseed, count):
     r = ctx.rng("c17chains", rseed)
     bases = [("php", [], (3, 2), []), ("op", [], (3,), []), ("count", [], (4, 2), []), ("and", [], (2, 1), []),
              ("peb", [], (), [G("dag", ["pyramid", 1])]), ("tseitin", ["first"], (), [G("simple", ["grid", 2, 2])]),
-             ("kclique", [], (2,), [G("simple", ["complete", 3])]), ("false", [], (), []), ("ram", [], (3, 3, 4), [])]
+             ("kclique", [], (2,), [G("simple", ["complete", 3])]), ("false", [], (), []), ("ram", [], (3, 3, 4), []),
+             # formulas with variables and no clauses: a transformation still renames / multiplies the variables
+             ("randkcnf", [], (3, 5, 0), []), ("ptn", [], (3,), []), ("ram", [], (4, 4, 3), []), ("vdw", [], (2, 3, 3), []),
+             ("true", [], (), []), ("randkxor", [], (2, 4, 0), [])]
     for _ in range(count):
         sub, opts, nums, gs = r.choice(bases)
         chain = [r.choice(CHAINS) for _ in range(r.randint(1, 3))]
@@ -1007,6 +1010,28 @@ def case_output_options(ctx):
                         ctx.violation("output:-o:format-of-file-name", "cnfgen -q -o <dir>/%s %s wrote %s, the name asks for %s"
                                       % (fname, " ".join(base), got, fmt))
                     ctx.judged(("output-name", fname, relative), nontrivial=True, sample={"output_file": fname, "format": got})
+            # the same switches on the OPB side: pbgen, and cnfgen -of opb
+            for tool, pre in (("pbgen", []), ("cnfgen", ["-of", "opb"])):
+                Fp = cli_formula(tool, [tool] + base)
+                np_ = Fp.number_of_variables()
+                for name, flags in (("default", []), ("-v", ["-v"]), ("-q", ["-q"]), ("--varnames", ["--varnames"]),
+                                    ("-q --varnames", ["-q", "--varnames"]), ("--varnames -q", ["--varnames", "-q"])):
+                    o = run_main(tool, pre + flags + base)
+                    ctx.count("output_option_checks")
+                    ctx.count("opb_output_option_checks")
+                    if o.exc is not None or o.rc not in (0, None):
+                        ctx.violation("output:opb:%s:fails" % name, "%s %s %s: rc=%r exc=%r" % (tool, " ".join(pre + flags), " ".join(base), o.rc, o.exc))
+                        continue
+                    vn = [l for l in o.out.splitlines() if l.startswith("* varname")]
+                    want_names = np_ if "--varnames" in name else 0
+                    if len(vn) != want_names:
+                        ctx.violation("output:opb:--varnames:count", "%s %s %s: %d varname lines, %d variables, %s"
+                                      % (tool, " ".join(pre + flags), " ".join(base), len(vn), np_,
+                                         "names were asked for" if want_names else "names were not asked for"))
+                    res = c12_opb.read_opb(o.out)
+                    if isinstance(res, c12_opb.Rejection) or res.variables != np_ or len(res.rows) != len(Fp):
+                        ctx.violation("output:opb:%s:formula-differs" % name, "%s %s %s prints another formula" % (tool, " ".join(pre + flags), " ".join(base)))
+                    ctx.judged(("output-opb", tool, tuple(base), name), nontrivial=True, sample={"command": "%s %s %s" % (tool, " ".join(pre + flags), " ".join(base))})
             for tool in ("cnfgen", "pbgen"):
                 o = run_main(tool, (["-q", "-of", "opb"] if tool == "cnfgen" else ["-q"]) + base)
                 ctx.count("output_option_checks")
